@@ -25,3 +25,18 @@ Fixpoint decode_word (fuel : nat) (next : N -> N -> N) (bits low : N) : list N :
   | O => []
   | S f => if bits =? 0 then [] else next bits low :: decode_word f next (N.land bits (bits - 1)) low
   end.
+
+(** littleendian_cast<uint64_t>(&sieve[i]): the 64-bit word formed by 8 consecutive bytes *)
+Fixpoint word_of_bytes (bs : list N) : N :=
+  match bs with [] => 0 | b :: r => N.lor b (N.shiftl (word_of_bytes r) 8) end.
+
+(** CountPrintPrimes::printPrimes / PrimeGenerator::fillNextPrimes over a byte array whose length is a multiple of 8
+    (the sieve array is zero-padded to a multiple of 8 bytes):
+      for (i = 0; i < size; i += 8) { bits = littleendian_cast<uint64_t>(&sieve[i]); decode the word; low += 8 * 30; } *)
+Fixpoint decode_array (words : nat) (next : N -> N -> N) (bytes : list N) (low : N) : list N :=
+  match words with
+  | O => []
+  | S k => decode_word 65 next (word_of_bytes (firstn 8 bytes)) low ++ decode_array k next (skipn 8 bytes) (low + 240)
+  end.
+(** zero padding to a multiple of 8 bytes *)
+Definition pad8 (bytes : list N) : list N := bytes ++ repeat 0 (Nat.modulo (8 - Nat.modulo (length bytes) 8) 8).
